@@ -6,10 +6,22 @@ GO = "GOFLAGS=-mod=mod GOPROXY=off GOSUMDB=off GOTOOLCHAIN=local"
 
 # property -> (technique, level text, level note, design ref)
 CHECKS = {
+ "C10": ("TLC: Macro.tla (collectMacro / recursion check / processPaste as pure operators) over all MACRO-PASTE documents up to a bound + all PASTE graphs over 4 macros; per-document replay on the real expansion and whole-build comparison of macro form vs in-place form",
+         "Every document of up to 5 (quick) / 6 (thorough) tokens over a 19-token MACRO/PASTE menu whose tree builds (208 166 / ~2.5 M documents) and every functional PASTE graph over 4 macros (3 125 graphs, all cycle lengths 1-4) is model-checked: expansion = tree of the in-place document, cycles and undefined macros are errors. Each is replayed on the real scanProject+processPaste (tree shape, error class, line) in crash-isolated workers, and the catalog of the macro form is compared with the catalog of the in-place form.",
+         "Trusts: one-directive-per-line rendering (C12), TLC. Error wording is compared by class only.",
+         "DESIGN.md 5/C10"),
  "C11": ("TLC: complete state graph of the context resolver (Tree.tla) + per-edge replay on the real tree builder + trace validation",
          "The complete, length-unbounded state graph of the context resolver (8 245 states, 275 870 transitions) is model-checked against the declarative context rule; every transition is replayed on the real tree builder (verdict, error line, open-context chain, attachment point, tree size); random 40-60 token executions of the real code are validated step by step by Trace_C11.tla.",
          "Trusts: the scanner cutting one-directive-per-line documents into lexemes (checked by C12), TLC, the independent transcription of the context table in spec/Lang.tla.",
          "DESIGN.md 5/C11"),
+ "C12": ("TLC: byte-exact scanner model (Scanner.tla) over all tapes from a chunk menu up to a length bound; every Feed edge replayed on the real Next()",
+         "Scanner.tla models every state function of the scanner byte for byte (modes, return stack, pending-event stack, cursor rewinds, parameter summary). TLC explores every tape of up to 8 (quick) / 10 (thorough) bytes assembled from 51 chunks, checks no-panic, well-formed / ordered / non-overlapping lexemes and in-file errors, and emits the run-to-EOF expectation of every edge (398 422 / several million tapes); the real Next() must return the same lexeme types, extents and error index.",
+         "Trusts: jsight-schema-core Len() for the extent of schema / enum bodies (pool bodies with known length; anything else is compared by prefix), TLC.",
+         "DESIGN.md 5/C12"),
+ "C13": ("TLC: exhaustive exploration of the keyword recogniser over the full 256-byte alphabet (Scanner.tla, trie derived from Lang.tla) + per-edge replay + table cross-check",
+         "All 180 224 edges (prefix . byte, 256 bytes at each of 704 positions inside or just behind a keyword / response code) are explored; invariants: keywords delivered are exactly the 30 keywords + codes 100-599, rejected at the first deviating byte, accepted only before blank / line end / EOF / '#' / '/'. Every edge is replayed on the real scanner; every keyword the real scanner delivers must be known to directive.NewDirectiveType; the enumeration and the specification's keyword table must coincide and every entry must be reachable.",
+         "Trusts: spec/Lang.tla keyword list as independent transcription of JSight API 0.3; TLC.",
+         "DESIGN.md 5/C13"),
 }
 NOT_YET = {}
 ALL = ["C%02d" % i for i in range(1, 20)]
@@ -36,7 +48,7 @@ def main():
     hooks = subprocess.run(["git", "-C", "/repo", "log", "--format=%H %s"], capture_output=True, text=True).stdout.splitlines()
     m = {
         "version": 1,
-        "setup_cmd": "cd /verif/harness && cp /repo/go.sum . && %s go build -tags verif -o /dev/null ./cmd/vh && tla-sany /verif/spec/MC_C11.tla >/dev/null" % GO,
+        "setup_cmd": "cd /verif/harness && cp /repo/go.sum . && %s go build -tags verif -o /dev/null ./cmd/vh && for m in MC_C10 MC_C11 MC_C12 MC_C13; do (cd /verif/spec && tla-sany $m.tla >/dev/null) || exit 1; done" % GO,
         "hooks": {
             "guard": "verif",
             "enable": "go build -tags verif (the harness module /verif/harness replaces github.com/jsightapi/jsight-api-core with /repo)",
